@@ -20,7 +20,7 @@ import os
 import posixpath
 import stat as pystat
 import struct
-from typing import Any, Dict, List, Optional, Tuple
+from typing import Any, Dict, List, Optional, Set, Tuple
 
 from hypothesis import strategies as st
 
@@ -1212,10 +1212,33 @@ def scp_chroot_strategy(tier: str):
 # downloads: judging what the *client side* did to the local filesystem
 # ---------------------------------------------------------------------------
 
+def repeated_names(tree) -> Set[bytes]:
+    """Names a generated listing gives to more than one entry of the same
+    directory (what the recorded write-through finding needs)"""
+
+    out: Set[bytes] = set()
+
+    def walk(kids):
+        seen: Set[bytes] = set()
+        for kid in kids:
+            name = posixpath.basename(bytes(kid['n']).rstrip(b'/')) or \
+                bytes(kid['n'])
+            if name in seen:
+                out.add(name)
+            seen.add(name)
+            walk(kid.get('kids') or [])
+
+    walk(tree)
+    return out
+
+
 def judge_download(box: fsbox.Box, tag: str, labels: set,
-                   before) -> None:
+                   before, repeated: Optional[Set[bytes]] = None) -> None:
     """Raise when the download created/modified/opened anything outside the
-    destination"""
+    destination.  repeated: names listed twice in one directory - a write
+    that follows a downloaded link of such a name is the recorded finding
+    (a later entry re-using the path of the link); a write through the link
+    of a name listed once is something else"""
 
     with Quiet(box):
         after = fsbox.snapshot(box.top, [box.permitted])
@@ -1231,10 +1254,14 @@ def judge_download(box: fsbox.Box, tag: str, labels: set,
 
         if acc.cls == 'write':
             via = bool(acc.res.links)
+            shared = via and (repeated is None or any(
+                posixpath.basename(bytes(link[0])) in repeated
+                for link in acc.res.links))
             v = Violation(
                 'download-escape', describe(box, acc),
-                tag + (':write-through-downloaded-symlink' if via
-                       else ':unvalidated-remote-name'))
+                tag + (':write-through-downloaded-symlink' if shared
+                       else ':write-through-own-symlink:' + acc.event
+                       if via else ':unvalidated-remote-name'))
         elif acc.cls == 'read' and acc.event == 'open' and \
                 acc.zone in ('box', 'sentinel'):
             v = Violation('download-escape', describe(box, acc),
@@ -1513,7 +1540,8 @@ def run_sftp_get(case) -> CaseResult:
             if any(True for _ in it):
                 labels.add('wrote-something')
 
-        judge_download(box, 'sftp-get', labels, before)
+        judge_download(box, 'sftp-get', labels, before,
+                       repeated_names(case['tree']))
         return CaseResult(sorted(labels), hostile or
                           'link-followed' in labels)
     finally:
